@@ -160,7 +160,20 @@ impl Executor {
                             SIMULATION_CONTEXT.set(&simulation_context, || {
                                 ACTIVE_TASKS.set(&active_tasks, || {
                                     LOCAL_WORKER.set(&worker, || {
-                                        run_local_worker(&worker, id, worker_parker, abort_signal)
+                                        run_local_worker(&worker, id, worker_parker, abort_signal);
+
+                                        // Drop the tasks left in the fast slot
+                                        // and in the local queue while the
+                                        // local worker is still set: a task may
+                                        // wake other tasks when dropped, which
+                                        // requires a local worker.
+                                        while let Some(task) = worker
+                                            .fast_slot
+                                            .take()
+                                            .or_else(|| worker.local_queue.pop())
+                                        {
+                                            drop(task);
+                                        }
                                     })
                                 })
                             });
